@@ -751,6 +751,52 @@ def reach_remap(n: int, chunk: int, how: int, kind: int) -> int:
     return remap_check(n, chunk, how, kind)
 
 
+def second_dtype_check(dt1, dt2, n, cast):
+    """The same specification written twice with data of different dtypes (channel without / with an explicit cast):
+    after the second set-up the representation code the channel declares is that of the dtype of the slots actually
+    generated, and the rows are those of the second data."""
+    nps.reset()
+    df, (lf,) = new_file(1)
+    add_origin(lf, 'O')
+    a = lf.add_channel('A', cast_dtype=getattr(nps, DT_NAMES[7]) if cast else None)
+    fr = lf.add_frame('F', channels=(a,))
+    src1 = {'A': col('colA1', n, dt1, '<', None)}
+    src2 = {'A': col('colA2', n, dt2, '<', None)}
+    try:
+        list(lf._make_multi_frame_data(fr, chunk_size=None, data=src1))
+        recs = list(lf._make_multi_frame_data(fr, chunk_size=None, data=src2))
+    except REJECT:
+        return 0
+    if len(recs) != n:
+        return 1
+    code = a.representation_code.value
+    if code is None:
+        return 2
+    for r in recs:
+        f = r._slots.arr.fields['A']
+        if f.column != 'colA2':
+            return 3
+        if DT_CODE[DT_NAMES.index(f.dt.name)] != code.value:
+            return 4                       # declared as one type, slot bytes of another
+    return 0
+
+
+def ob_second_dtype(dt1: int, dt2: int, n: int, cast: bool) -> int:
+    """
+    pre: 0 <= dt1 < 8 and 0 <= dt2 < 8 and 1 <= n <= 2 and dt1 % SHARD_N == SHARD_I % 8
+    post: _ == 0
+    """
+    return second_dtype_check(dt1, dt2, n, cast)
+
+
+def reach_second_dtype(dt1: int, dt2: int, n: int, cast: bool) -> int:
+    """
+    pre: 0 <= dt1 < 8 and 0 <= dt2 < 8 and 1 <= n <= 2
+    post: _ != 0
+    """
+    return second_dtype_check(dt1, dt2, n, cast)
+
+
 def ob_two_frames(n1: int, n2: int, c1: int, c2: int) -> int:
     """
     pre: 1 <= n1 <= 4 and 1 <= n2 <= 4 and 1 <= c1 <= 5 and 1 <= c2 <= 5
